@@ -224,6 +224,97 @@ func c27Copy(t *rapid.T, col *ev.Collector) {
 	}
 }
 
+// c27Chain re-widths one constant several times (narrowing and widening in any
+// order) and compares every intermediate constant with a byte-slice model: the
+// content is the low bytes, zero-extended. All constants of the chain are
+// checked again at the end, so a later operation must not change an earlier
+// result, and each is read back as uint64.
+func c27Chain(t *rapid.T, col *ev.Collector) {
+	w := c27DrawWidth(t)
+	var c expr.Const
+	var cur []byte
+	var origin string
+	switch rapid.IntRange(0, 3).Draw(t, "origin") {
+	case 0:
+		raw, _ := c27DrawU64(t)
+		c, cur, origin = expr.ConstFromUint(raw), leBytes(new(big.Int).SetUint64(raw), 8), fmt.Sprintf("ConstFromUint[uint64](%#x)", raw)
+	case 1:
+		raw, _ := c27DrawU64(t)
+		v := int32(raw)
+		c, cur, origin = expr.ConstFromInt(v), leBytes(big.NewInt(int64(v)), 4), fmt.Sprintf("ConstFromInt[int32](%d)", v)
+	case 2:
+		raw, _ := c27DrawU64(t)
+		v := uint32(raw)
+		c, cur, origin = expr.NewConstUint(v, 4), leBytes(new(big.Int).SetUint64(uint64(v)), 4), fmt.Sprintf("NewConstUint[uint32](%#x, 4)", v)
+	default:
+		bs := irsem.GenBytes(t, int(w), "bytes")
+		cur = cloneBytes(bs)
+		c, origin = expr.NewConst(bs, w), fmt.Sprintf("NewConst(%x, %d)", cur, w)
+	}
+	type kept struct {
+		c    expr.Const
+		want []byte
+		desc string
+	}
+	chain := []kept{{c, cur, origin}}
+	narrowed, widenedAfter := false, false
+	steps := rapid.IntRange(2, 6).Draw(t, "steps")
+	desc := origin
+	for i := 0; i < steps; i++ {
+		var w2 expr.Width
+		switch rapid.IntRange(0, 3).Draw(t, "stepKind") {
+		case 0: // narrower than now
+			w2 = expr.Width(rapid.IntRange(0, len(cur)).Draw(t, "narrow"))
+		case 1: // back to some earlier width of the chain
+			w2 = expr.Width(len(chain[rapid.IntRange(0, len(chain)-1).Draw(t, "back")].want))
+		default:
+			w2 = c27DrawWidth(t)
+		}
+		dropsNonzero := false
+		for _, b := range cur[minInt(int(w2), len(cur)):] {
+			dropsNonzero = dropsNonzero || b != 0
+		}
+		if int(w2) > len(cur) && narrowed {
+			widenedAfter = true
+		}
+		narrowed = narrowed || dropsNonzero
+		desc += fmt.Sprintf(".WithWidth(%d)", w2)
+		var c2 expr.Const
+		if msg := catch(func() { c2 = c.WithWidth(w2) }); msg != "" {
+			t.Fatalf("%s: %s", desc, msg)
+		}
+		next := make([]byte, w2)
+		copy(next, cur)
+		if string(c2.Bytes()) != string(next) || c2.Width() != w2 {
+			t.Fatalf("%s = %x, want %x (low bytes of %x, zero-extended)", desc, c2.Bytes(), next, cur)
+		}
+		c, cur = c2, next
+		chain = append(chain, kept{c2, next, desc})
+	}
+	for _, k := range chain {
+		if string(k.c.Bytes()) != string(k.want) {
+			t.Fatalf("%s was %x and changed to %x by later steps of %s", k.desc, k.want, k.c.Bytes(), desc)
+		}
+		val := irsem.FromBytes(k.want)
+		got, ok := expr.ConstUint[uint64](k.c)
+		if got != new(big.Int).And(val, new(big.Int).SetUint64(^uint64(0))).Uint64() || ok != (val.BitLen() <= 64) {
+			t.Fatalf("ConstUint[uint64](%s) = (%#x, %v), constant is %x", k.desc, got, ok, k.want)
+		}
+	}
+	col.Class("chain")
+	if widenedAfter {
+		col.Class("chain/widened-after-dropping-nonzero-bytes")
+		col.Nontrivial("chain/" + desc)
+	}
+}
+
+func minInt(a, b int) int {
+	if a < b {
+		return a
+	}
+	return b
+}
+
 var colC27 *ev.Collector
 
 // propC27 is the property of C27; it is shared by the rapid test and the native
@@ -232,7 +323,7 @@ func propC27(t *rapid.T) {
 	col := colC27
 	for n := 0; n < 8; n++ {
 		col.Case()
-		switch rapid.IntRange(0, 15).Draw(t, "which") {
+		switch rapid.IntRange(0, 17).Draw(t, "which") {
 		case 0:
 			c27Uint[uint8](t, col, "uint8")
 		case 1:
@@ -261,6 +352,8 @@ func propC27(t *rapid.T) {
 			c27ReadBack[uint32](t, col, "uint32")
 		case 13:
 			c27ReadBack[uint64](t, col, "uint64")
+		case 14, 15:
+			c27Chain(t, col)
 		default:
 			c27Copy(t, col)
 		}
@@ -271,9 +364,11 @@ func TestC27(t *testing.T) {
 	runWitnesses(t, "C27")
 	colC27 = ev.New("C27", "rapid: all 10 integer types x widths {0..16,255} and a tenth anywhere in 0..255 x boundary-biased values (0, +-1, +-2^(8k), "+
 		"+-2^(8k)+-1, +-2^(8k-1), +-2^(8k-1)-1, all-ones, random); oracle = math/big range test and two's complement "+
-		"encoding; plus read-back ConstUint[T] of arbitrary byte strings and copy semantics of NewConst/WithWidth. "+
+		"encoding; plus read-back ConstUint[T] of arbitrary byte strings and copy semantics of NewConst/WithWidth; "+
+		"plus chains of 2-6 WithWidth steps (narrowing, widening, returning to earlier widths) from constants of every constructor, "+
+		"each intermediate compared with a byte model, re-checked after the whole chain and read back. "+
 		"non-trivial = width narrower than the type with a boundary value, read-back of a constant wider than T, or "+
-		"source length != width; distinct by (type,width,value)")
+		"source length != width, or a chain that widens after it dropped non-zero bytes; distinct by (type,width,value)")
 	col := colC27
 	defer col.Flush()
 
